@@ -63,14 +63,18 @@ class ErrorRender:
 		if not os.path.exists(filepath):
 			return []
 
-		# XXX Larkのソースマップは+1されているため-1
-		source_map = (
-			node.source_map['begin'][0] - 1,
-			node.source_map['begin'][1] - 1,
-			node.source_map['end'][0] - 1,
-			node.source_map['end'][1] - 1,
-		)
-		return self.Quotation(filepath, source_map).build()
+		try:
+			# XXX Larkのソースマップは+1されているため-1
+			source_map = (
+				node.source_map['begin'][0] - 1,
+				node.source_map['begin'][1] - 1,
+				node.source_map['end'][0] - 1,
+				node.source_map['end'][1] - 1,
+			)
+			return self.Quotation(filepath, source_map).build()
+		except Exception:
+			# XXX 位置情報が不完全なノード(ファイル末尾で閉じるブロックは終了位置を持たない場合がある)は引用を省略。エラー出力自体は失敗させない
+			return []
 
 	def __build_name(self) -> str:
 		"""Returns: 例外モジュールパス"""
